@@ -223,3 +223,89 @@ def translate_all(repo):
     except Unsupported as e:
         fails['gen_flags_new'] = str(e)
     return defs, ties, fails
+
+
+LINKED_TAIL = r'''
+Lemma L_header : forall l, run gen_header_read l = run header_read l.
+Proof. intros l. unfold gen_header_read, header_read. run_eq2. Qed.
+Lemma L_flags : forall l, run gen_flags_read l = run flags_read l.
+Proof. intros l. unfold gen_flags_read, flags_read. run_eq2. Qed.
+Lemma L_decode : forall t l, run (gen_decode_avp t) l = run (decode_avp t) l.
+Proof. intros t l. unfold gen_decode_avp. destruct t as [|p]; [unfold_model; run_eq2|]. do 6 (try (destruct p as [p|p|])); unfold_model; run_eq2. Qed.
+#[export] Hint Rewrite L_header L_flags L_decode : gen_ties.
+Lemma L_greedy : forall fuel l, run (genL_greedy fuel) l = run (greedy fuel) l.
+Proof.
+  induction fuel as [|fuel IH]; intros l; [reflexivity|]. cbn [genL_greedy greedy].
+  rewrite !run_bind, L_header.
+  match goal with |- obind ?x _ = _ => destruct x as [[[[?|?]|] ?]| | |] end; cbn [obind]; try reflexivity.
+  gen_norm; cbv [len_ skip_ bytes_ sub_]; cbn [run bind obind].
+  repeat (first [reflexivity | progress (rewrite ?run_bind) | progress (rewrite ?IH) | progress (autorewrite with gen_ties)
+                | run_split; cbn [run obind bind] | obind_split; cbn [run obind bind]]).
+Qed.
+Lemma L_avps : forall l, run genL_avps_read l = run avps_read l.
+Proof. intros l. unfold genL_avps_read, avps_read. rewrite !run_bind, run_len_. cbn [obind]. apply L_greedy. Qed.
+#[export] Hint Rewrite L_avps : gen_ties.
+Ltac run_eq3 :=
+  intros; gen_norm;
+  cbv [len_ is_empty_ u8_ u16_ u32_ u64_ bytes_ skip_ sub_ usub];
+  cbn [run obind bind];
+  repeat (first [reflexivity
+                | progress gen_norm
+                | progress (autorewrite with gen_ties)
+                | progress (rewrite ?run_bind; autorewrite with gen_ties); cbn [obind]
+                | and_split; cbn [run obind bind]
+                | run_split; cbn [run obind bind]
+                | bind_split; cbn [run obind bind]
+                | obind_split; cbn [run obind bind]]);
+  try (exfalso; grd; rewrite ?len_takeN in *; lia).
+Lemma L_data : forall w l, run (genL_data_read w) l = run (data_read w) l.
+Proof. intros w l. unfold genL_data_read, data_read. run_eq3. Qed.
+Lemma L_ctrl : forall w o l, run (genL_ctrl_read w o) l = run (ctrl_read w o) l.
+Proof. intros w o l. unfold genL_ctrl_read, ctrl_read. run_eq3. all: bool_close. Qed.
+#[export] Hint Rewrite L_data L_ctrl : gen_ties.
+Lemma L_msg : forall o l, run (genL_msg_read o) l = run (msg_read o) l.
+Proof. intros o l. unfold genL_msg_read, msg_read. run_eq3. Qed.
+
+(** the decoder regenerated from the source, with every callee regenerated too, IS the Model's decoder on every input *)
+Theorem regenerated_decoder_is_model : forall o b, run (genL_msg_read o) b = m_decode o b.
+Proof. intros. apply L_msg. Qed.
+Theorem regenerated_avps_is_model : forall b, run genL_avps_read b = m_avps b.
+Proof. intros. apply L_avps. Qed.
+
+(** hence the property theorems hold of the regenerated program *)
+Theorem G_C01_total : forall o b, bytes_ok b = true ->
+  exists r rest, run (genL_msg_read o) b = Val (r, rest) /\ (is_Ok r = true \/ exists e es, r = Err (e :: es)).
+Proof. intros o b B. rewrite regenerated_decoder_is_model. exact (message_total o b B). Qed.
+Theorem G_C05_refines_spec : forall o b, bytes_ok b = true ->
+  exists x, run (genL_msg_read o) b = Val x /\ obs_of x = s_decode o b.
+Proof. intros o b B. rewrite regenerated_decoder_is_model. exact (decode_refines o b B). Qed.
+Theorem G_C02_no_contract_violation : forall o b, bytes_ok b = true ->
+  run (genL_msg_read o) b <> UB /\ (forall k, run (genL_msg_read o) b <> Panic k) /\ run (genL_msg_read o) b <> OutOfFuel.
+Proof. intros o b B. rewrite regenerated_decoder_is_model. exact (decode_no_ub o b B). Qed.
+Print Assumptions G_C01_total.
+Print Assumptions G_C05_refines_spec.
+'''
+
+
+def linked_text(defs):
+    """One file: the decoder functions regenerated from the source, linked to each other (every callee is the
+    regenerated one, not the Model's), proved equal to the Model's decoder on every input, and the property theorems
+    transported to it.  -> text or None when a needed function could not be translated"""
+    import re
+    need = ['gen_header_read', 'gen_flags_read', 'gen_decode_avp', 'gen_greedy', 'gen_data_read', 'gen_ctrl_read', 'gen_msg_read']
+    if any(n not in defs for n in need):
+        return None
+
+    def ren(txt, m):
+        for a, bb in m:
+            txt = re.sub(r'\b%s\b' % a, bb, txt)
+        return txt
+    out = HEADER + 'From RL Require Import Spec.SpecDecode Proofs.RefineDecode Proofs.Totality.\n'
+    out += defs['gen_header_read'] + defs['gen_flags_read'] + defs['gen_decode_avp']
+    out += ren(defs['gen_greedy'], [('gen_greedy', 'genL_greedy'), ('header_read', 'gen_header_read'), ('decode_avp', 'gen_decode_avp')])
+    out += "Definition genL_avps_read : prog (list (dres avp)) := bind len_ (fun n => genL_greedy (S (N.to_nat n))).\n"
+    out += ren(defs['gen_data_read'], [('gen_data_read', 'genL_data_read')])
+    out += ren(defs['gen_ctrl_read'], [('gen_ctrl_read', 'genL_ctrl_read'), ('avps_read', 'genL_avps_read')])
+    out += ren(defs['gen_msg_read'], [('gen_msg_read', 'genL_msg_read'), ('flags_read', 'gen_flags_read'), ('data_read', 'genL_data_read'),
+                                      ('ctrl_read', 'genL_ctrl_read')])
+    return out + LINKED_TAIL
